@@ -323,10 +323,15 @@ def run(ctx):
             if fails:
                 # an output whose declarations clash cannot be read reliably by the facts extractor
                 explained = fams & (set(spec["known"]) | {"method_name_clash", "mock_name_twice"})
+                # a known family explains a failure only where the implementation does what the model -- on which
+                # the family was described -- does; where they disagree, the failure is the implementation's own
+                disagrees = cr["verdict"] is not None and (cr["verdict"] not in OK_VERDICTS or cr["verdict"] == "ok-proj")
+                if disagrees:
+                    explained = set()
                 # a failure that is nothing but a go/types diagnostic, on an input of a listed family that
                 # keeps the output from compiling, is that finding (whichever property's oracle meets it)
                 terrs = set(e[:200] for e in (cr["facts"].get("type_errors") or []))
-                if not explained and all(sym in terrs for _, sym in fails):
+                if not explained and not disagrees and all(sym in terrs for _, sym in fails):
                     explained = fams & set(ALL_FAMILIES)
                 if explained and (explained & listed_families):
                     for fam in explained & listed_families:
@@ -421,6 +426,8 @@ def run(ctx):
             if all(ch in canon for ch in need):
                 continue
             fams = set(cr["families"])
+            if cr["verdict"] is not None and (cr["verdict"] not in OK_VERDICTS or cr["verdict"] == "ok-proj"):
+                fams = set()          # a known family explains nothing where model and implementation disagree
             if fams & set(STRUCTURE_FAMILIES) and (fams & set(STRUCTURE_FAMILIES)) & listed_families:
                 for fam in fams & set(STRUCTURE_FAMILIES) & listed_families:
                     known_hits.setdefault(fam, []).append(cr["case"]["id"])
